@@ -40,21 +40,45 @@ type c05Case struct {
 	ErrEvery    int    `json:",omitempty"` // > 0: the first round trip of every ErrEvery-th request fails after a short while ...
 	ErrKind     string `json:",omitempty"` // ... with this kind of error (eof | reset | pipe | idle | unexpected)
 	OwnSeqHdr   bool   `json:",omitempty"` // the targets themselves carry X-Vegeta-Seq / X-Vegeta-Attack headers (replayed captures)
+	// RateFreq > 0: a real constant pacer (RateFreq hits per RatePerUS microseconds) instead of "as fast as possible",
+	// with every StallEvery-th request taking StallUS microseconds, so that the attack falls behind and catches up
+	RateFreq   int `json:",omitempty"`
+	RatePerUS  int `json:",omitempty"`
+	StallEvery int `json:",omitempty"`
+	StallUS    int `json:",omitempty"`
+	BadEvery   int `json:",omitempty"` // > 0: every BadEvery-th target is one no request can be built from
+}
+
+const c05BadURL = "http://[::1/never-sent"
+
+// c05CountedConst is a constant pacer that stops after n hits.
+type c05CountedConst struct {
+	vegeta.ConstantPacer
+	n uint64
+}
+
+func (p c05CountedConst) Pace(el time.Duration, hits uint64) (time.Duration, bool) {
+	if hits >= p.n {
+		return 0, true
+	}
+	return p.ConstantPacer.Pace(el, hits)
 }
 
 type c05Transport struct {
-	mode      string
-	hangEvery int
-	errEvery  int
-	errKind   string
-	inflight  int64
-	overlaps  int64
-	n         int64
-	mu        sync.Mutex
-	entry     map[uint64]time.Time
-	exit      map[uint64]time.Time
-	took      map[uint64]time.Duration // total time the transport spent on the hit (all its round trips)
-	trips     map[uint64]int
+	mode       string
+	hangEvery  int
+	stallEvery int
+	stallUS    int
+	errEvery   int
+	errKind    string
+	inflight   int64
+	overlaps   int64
+	n          int64
+	mu         sync.Mutex
+	entry      map[uint64]time.Time
+	exit       map[uint64]time.Time
+	took       map[uint64]time.Duration // total time the transport spent on the hit (all its round trips)
+	trips      map[uint64]int
 }
 
 func c05Err(kind string) error {
@@ -92,6 +116,8 @@ func (t *c05Transport) RoundTrip(req *http.Request) (*http.Response, error) {
 		<-req.Context().Done() // the client timeout cancels the request
 		time.Sleep(2 * time.Millisecond)
 		rerr = req.Context().Err()
+	case t.stallEvery > 0 && n%int64(t.stallEvery) == 1:
+		time.Sleep(time.Duration(t.stallUS) * time.Microsecond)
 	case t.mode == "gosched":
 		runtime.Gosched()
 	case t.mode == "sleep":
@@ -123,7 +149,7 @@ func evalC05(c c05Case) (overlaps int64, err error) {
 		defer runtime.GOMAXPROCS(runtime.GOMAXPROCS(c.Procs))
 	}
 	tr := &c05Transport{mode: c.Transport, hangEvery: c.HangEvery, entry: map[uint64]time.Time{}, exit: map[uint64]time.Time{},
-		errEvery: c.ErrEvery, errKind: c.ErrKind, took: map[uint64]time.Duration{}, trips: map[uint64]int{}}
+		stallEvery: c.StallEvery, stallUS: c.StallUS, errEvery: c.ErrEvery, errKind: c.ErrKind, took: map[uint64]time.Duration{}, trips: map[uint64]int{}}
 	client := &http.Client{Transport: tr}
 	if c.TimeoutMS > 0 {
 		client.Timeout = time.Duration(c.TimeoutMS) * time.Millisecond
@@ -147,12 +173,29 @@ func evalC05(c c05Case) (overlaps int64, err error) {
 			return nil
 		}
 	}
+	if c.BadEvery > 0 {
+		inner := targeter
+		var calls int64
+		targeter = func(t *vegeta.Target) error {
+			if err := inner(t); err != nil {
+				return err
+			}
+			if atomic.AddInt64(&calls, 1)%int64(c.BadEvery) == 0 {
+				t.URL = c05BadURL
+			}
+			return nil
+		}
+	}
+	var pacer vegeta.Pacer = stopAfterPacer{uint64(c.Hits)}
+	if c.RateFreq > 0 {
+		pacer = c05CountedConst{vegeta.ConstantPacer{Freq: c.RateFreq, Per: time.Duration(c.RatePerUS) * time.Microsecond}, uint64(c.Hits)}
+	}
 	atk := vegeta.NewAttacker(vegeta.Client(client), vegeta.Workers(uint64(c.MaxWorkers)), vegeta.MaxWorkers(uint64(c.MaxWorkers)))
 	before := time.Now()
 	var results []*vegeta.Result
 	p := plot.New()
 	var plotErr error
-	for r := range atk.Attack(targeter, stopAfterPacer{uint64(c.Hits)}, 0, "c05") {
+	for r := range atk.Attack(targeter, pacer, 0, "c05") {
 		results = append(results, r)
 		if plotErr == nil { // the consumer named in the property: fed in completion order
 			plotErr = p.Add(r)
@@ -165,6 +208,12 @@ func evalC05(c c05Case) (overlaps int64, err error) {
 	}
 	if c.OwnSeqHdr {
 		what += ", targets carrying X-Vegeta-Seq/X-Vegeta-Attack headers of their own"
+	}
+	if c.RateFreq > 0 {
+		what += fmt.Sprintf(", paced at %d per %dus with every %d-th request taking %dus", c.RateFreq, c.RatePerUS, c.StallEvery, c.StallUS)
+	}
+	if c.BadEvery > 0 {
+		what += fmt.Sprintf(", every %d-th target malformed", c.BadEvery)
 	}
 	if len(results) != c.Hits {
 		return overlaps, fmt.Errorf("%s: %d results", what, len(results))
@@ -186,6 +235,16 @@ func evalC05(c c05Case) (overlaps int64, err error) {
 		exit := tr.exit[r.Seq]
 		took, trips := tr.took[r.Seq], tr.trips[r.Seq]
 		tr.mu.Unlock()
+		if r.URL == c05BadURL {
+			// no request could be built: the hit has its place in both orders, but never reaches the transport
+			if ok || r.Error == "" {
+				return overlaps, fmt.Errorf("%s: seq %d has a malformed target but reached the transport (%v) / has error %q", what, r.Seq, ok, r.Error)
+			}
+			if r.Latency < 0 {
+				return overlaps, fmt.Errorf("%s: seq %d has negative latency %s", what, r.Seq, r.Latency)
+			}
+			continue
+		}
 		if !ok {
 			return overlaps, fmt.Errorf("%s: seq %d never reached the transport", what, r.Seq)
 		}
@@ -240,6 +299,19 @@ func TestC05Order(t *testing.T) {
 			}
 		}
 		c.OwnSeqHdr = rapid.IntRange(0, 2).Draw(t, "ownhdr") == 0
+		if rapid.IntRange(0, 3).Draw(t, "bad") == 0 {
+			c.BadEvery = rapid.SampledFrom([]int{2, 5, 100}).Draw(t, "badevery")
+		}
+		if rapid.IntRange(0, 2).Draw(t, "paced") == 0 {
+			// a few hundred hits at 1-10 per millisecond, falling behind by several rate periods now and then
+			c.RateFreq = rapid.SampledFrom([]int{1, 5, 10}).Draw(t, "ratefreq")
+			c.RatePerUS = rapid.SampledFrom([]int{500, 1000, 5000}).Draw(t, "rateper")
+			c.StallEvery = rapid.SampledFrom([]int{7, 40}).Draw(t, "stallevery")
+			c.StallUS = c.RatePerUS * rapid.SampledFrom([]int{2, 3, 8}).Draw(t, "stallfactor")
+			c.Hits = rapid.IntRange(50, 400).Draw(t, "pacedhits")
+			c.MaxWorkers = rapid.SampledFrom([]int{1, 1, 2, 4}).Draw(t, "pacedworkers")
+			c.TimeoutMS, c.HangEvery = 0, 0
+		}
 		if c.Transport == "sleep" && c.Hits > 20000 {
 			c.Hits = 20000
 		}
@@ -253,8 +325,8 @@ func TestC05Order(t *testing.T) {
 			}
 		}
 		overlaps, err := evalC05(c)
-		nt := overlaps >= 1000
-		vh.Case("C05.order", fmt.Sprintf("%+v", c), nt, "transport:"+c.Transport, fmt.Sprintf("timeouts:%v", c.TimeoutMS > 0), fmt.Sprintf("transport-errors:%v", c.ErrEvery > 0), fmt.Sprintf("own-seq-header:%v", c.OwnSeqHdr))
+		nt := overlaps >= 1000 || c.RateFreq > 0 // (paced cases: the attack fell behind its pacer and caught up, several times)
+		vh.Case("C05.order", fmt.Sprintf("%+v", c), nt, "transport:"+c.Transport, fmt.Sprintf("timeouts:%v", c.TimeoutMS > 0), fmt.Sprintf("transport-errors:%v", c.ErrEvery > 0), fmt.Sprintf("own-seq-header:%v", c.OwnSeqHdr), fmt.Sprintf("paced-with-stalls:%v", c.RateFreq > 0), fmt.Sprintf("malformed-targets:%v", c.BadEvery > 0))
 		vh.Count("C05.order", "hits", c.Hits)
 		vh.Count("C05.order", "overlapping_transport_entries", int(overlaps))
 		vh.Sample("C05.order", nt, c)
